@@ -18,7 +18,7 @@ RULE = (
     "tuples of EXECUTED elementary moves for which a reverse move existed and the detailed-balance identity was evaluated"
 )
 FAULT_KEYS = ["adversarial_choice", "row_permute", "cache_flush", "cache_growth", "cache_created", "exchange_accepted", "exchange_rejected"]
-PROBE_KEYS = ["sweep_kernels_extracted", "choice_fidelity_checked",
+PROBE_KEYS = ["sweep_kernels_extracted", "structural_sweep_kernels_extracted", "choice_fidelity_checked",
     "db_mutation_pairs", "db_structural_pairs", "db_exchange_pairs", "dup_state_move", "heated_move",
     "multiallelic_move", "recombination_move", "dosage_move", "zero_option_interval", "order_probe",
     "underflow_skip", "sweeps_checked", "partitions_checked", "cli_models_checked",
@@ -56,6 +56,8 @@ def execute(ctx):
         # consequence clause at the command line: the model `mchap assemble` fits is the posterior of the inputs it was given
         wl_cli.run_assemble_cli(ctx, lambda rec: wl_cli.check_assemble_target(ctx, rec))
         return
+    if ctx.config.get("struct_sweep_kernel"):
+        wl_assemble.check_structural_sweep_kernel(ctx, ctx.config)
     if ctx.config.get("sweep_kernel"):
         wl_assemble.check_mutation_sweep_kernel(ctx, ctx.config)
     sim = wl_assemble.AssembleSim(ctx, ctx.config, checks=("db",), probe_budget=8)
